@@ -43,6 +43,27 @@ fn alphabet(size: u8) -> Vec<Tx> {
 			vec![(2, Op::Set(hk(1), hv(2)))],
 		]
 	}
+	if size == 7 {
+		// a commit that, besides the dereference of the locked tree, holds only root-level operations (a tree that
+		// is a single leaf root has no node changes): nothing of it may be lost when the dereference is postponed
+		return vec![
+			vec![(0, Op::InsertTree(rk(3), NodeSpec::leaf(B::pat(11, 9)))), (0, Op::DerefTree(rk(1)))],
+			vec![(0, Op::DerefTree(rk(3)))],
+			vec![(2, Op::Set(hk(1), hv(2)))],
+		]
+	}
+	if size == 8 {
+		// the new tree names nodes of K1 only below a new inner node (depth 2 and 3), none directly under its root
+		a[2] = vec![(0, Op::InsertTree(rk(2), NodeSpec {
+			data: B::pat(6, 5),
+			children: vec![
+				ChildSpec::New(NodeSpec { data: B::pat(7, 6), children: vec![ChildSpec::Existing(rk(1), vec![0]), ChildSpec::New(NodeSpec { data: B::pat(4, 7), children: vec![ChildSpec::Existing(rk(1), vec![1])] })] }),
+				ChildSpec::New(NodeSpec::leaf(B::pat(3, 8))),
+			],
+		}))];
+		a.push(vec![(0, Op::DerefTree(rk(2)))]);
+		return a
+	}
 	if size >= 1 {
 		a.push(vec![(0, Op::DerefTree(rk(2)))]);
 		a.push(vec![(2, Op::Del(hk(1))), (1, Op::Del(hk(1)))]);
@@ -116,15 +137,15 @@ fn scenario(name: &str, size: u8, n: usize, x: usize, three_cols: bool) -> Scena
 
 pub fn scenarios(tier: &str) -> Vec<Scenario> {
 	if tier == "thorough" {
-		vec![scenario("lock/3col-n3", 1, 3, 1, true), scenario("lock/2col-n4-small", 0, 4, 1, false), scenario("lock/2col-n3-insert+deref-in-one-transaction", 9, 3, 1, false)]
+		vec![scenario("lock/3col-n3", 1, 3, 1, true), scenario("lock/2col-n4-small", 0, 4, 1, false), scenario("lock/2col-n3-insert+deref-in-one-transaction", 9, 3, 1, false), scenario("lock/2col-n3-reuse-below-a-new-inner-node", 8, 3, 1, false), scenario("lock/2col-n3-leaf-root-inserted-with-the-dereference", 7, 3, 1, false)]
 	} else {
-		vec![scenario("lock/2col-n2", 0, 2, 1, false), scenario("lock/3col-n2", 0, 2, 0, true), scenario("lock/2col-n2-insert+deref-in-one-transaction", 9, 2, 0, false)]
+		vec![scenario("lock/2col-n2-leaf-root-inserted-with-the-dereference", 7, 2, 0, false), scenario("lock/2col-n2-insert+deref-in-one-transaction", 9, 2, 0, false), scenario("lock/2col-n2-reuse-below-a-new-inner-node", 8, 2, 0, false), scenario("lock/3col-n2", 0, 2, 0, true), scenario("lock/2col-n2", 0, 2, 1, false)]
 	}
 }
 
 pub fn run(tier: &str) -> ! {
 	let mut run = Run::new("C11", tier, "model_checking");
-	let budget = Budget::new(if tier == "thorough" { 1500.0 } else { 100.0 });
+	let budget = Budget::new(if tier == "thorough" { 1500.0 } else { 150.0 });
 	run.set("rule", json!("graph search from a state with one live tree K1: events lock(K1) / unlock(K1) (take / release the TreeReader read lock), commits from {DereferenceTree(K1) + writes to a hash and a btree column; a later transaction writing the same keys; InsertTree(K2) reusing a node of K1; DereferenceTree(K2); removals}, all five stage events, reopen. Oracle: while the lock is held the tree read through the reader equals the snapshot taken at lock time; every column always agrees with the model that applies transactions in commit-return order (so a deferred removal changes nothing else); after unlock the removal completes (root unreadable once all commits are logged, entry count = model)"));
 	run.assumptions = vec!["single-threaded: lock/unlock are events; thread interleavings of the same actors are explored by the loom engine".into()];
 	super::run_scenarios(&mut run, &scenarios(tier), &budget);
